@@ -502,11 +502,47 @@ func (c *genCtx) perturb(base *Expr) *Expr {
 func (c *genCtx) trap(depth int, nn bool) *Expr {
 	base := c.simpleSeq(depth)
 	bad := c.perturb(base)
-	kinds := 7
+	kinds := 8
 	if c.o.NoLookNeg {
-		kinds = 4
+		kinds = 5
 	}
-	switch c.draw(0, kinds-1, "trapkind") {
+	kind := c.draw(0, kinds-1, "trapkind")
+	if c.o.NoLookNeg && kind == 4 {
+		kind = 7
+	}
+	if c.o.NameElided && len(c.g.Elide) > 0 && c.draw(0, 2, "elidedtrap") == 0 {
+		kind = 8
+	}
+	switch kind {
+	case 8:
+		// inside one capture an optional attempt starts by matching an elided token the grammar names and is
+		// then abandoned; the accepted path skips that token: @( (Comment x)? y )
+		el := Ref(rapid.SampledFrom(c.g.Elide).Draw(c.t, "trapelided"))
+		x := c.leaf()
+		y := c.otherLiteral(x)
+		att := Group(rapid.SampledFrom([]string{"?", "*"}).Draw(c.t, "capmod"), Seq(el, x))
+		att.Style = c.draw(0, 5, "gstyle")
+		body := []*Expr{att, y}
+		if rapid.Bool().Draw(c.t, "eltail") {
+			body = append(body, c.leaf())
+		}
+		return Cap(Seq(body...))
+	case 7:
+		// the value path of one capture: @( (a b)* ) followed by `a` and a token other than b -- the last
+		// iteration matches `a`, fails and is abandoned; its token must not show in the captured value
+		a, b := c.leaf(), c.leaf()
+		var pre []*Expr
+		if c.draw(0, 2, "cappre") == 0 {
+			pre = append(pre, c.leaf())
+		}
+		rep := Group(rapid.SampledFrom([]string{"*", "+", "*", "?"}).Draw(c.t, "capmod"), Seq(a, b))
+		rep.Style = c.draw(0, 5, "gstyle")
+		cont := []*Expr{Cap(clone(a)), c.otherLiteral(b)}
+		if rapid.Bool().Draw(c.t, "capplain") {
+			cont[0] = clone(a)
+			cont[1] = Cap(cont[1])
+		}
+		return Seq(Cap(Seq(append(pre, rep)...)), cont[0], cont[1])
 	case 0:
 		return Alt(bad, base)
 	case 1:
